@@ -18,7 +18,8 @@ RULE = ("Each case is an abstract expression tree (Spec.Arith.expr) printed with
         "negative and boundary values; every number spelling x case variant on a boundary value set. Generated: seeded random trees "
         "of depth <= 6 over all operators, brackets, spellings, leaves constant / symbolic / address-valued / '.', incl. planted "
         "errors (division by zero, negative shift, bare 8/9, unencodable character, undefined symbol); values wider than 32 bits "
-        "are observed through '((e) >> k) & 37777777777' slices. non-trivial = distinct source text containing at least one "
+        "are observed through '((e) >> k) & 37777777777' slices. A fixed list of token lists outside the documented language "
+        "(postfix operators, calls, prefix operators in the middle, unclosed brackets, malformed numbers) is compared with the model only. non-trivial = distinct source text containing at least one "
         "operator, bracket or non-bare-octal literal.")
 LEVEL_TEXT = ("Coq theorems: every operator body translated from operators.py equals the documented arithmetic on all of Z incl. "
               "exactly the same error cases; the regenerated precedence table orders all operator pairs like the C table; the model of "
@@ -359,7 +360,9 @@ def explore(rep, br, tier, seed):
     for r in recs:
         ops |= X.ops_of(r["tree"])
     rep.extra["operators_and_brackets_seen"] = sorted(ops)
-    rep.extra["proof_status"] = {"ops_agree": "full", "literals": "full", "parse_print": "see Props/C05.v"}
+    rep.extra["proof_status"] = {"ops_agree": "full (all Z)", "literals": "full (all n : N, all spellings)",
+                                "parse_print": "full (all trees of any depth; the stated fallback was not needed)",
+                                "address_valued_operands": "correspondence only (LinearPolynomial is owned by C09/C12)"}
 
 
 def search(rep, br, tier, seed):
